@@ -672,83 +672,108 @@ def fn_label(fn):
 # linearised method-call facts (for ordering / guard rules)
 
 
-def linear_calls(fn_or_block):
+def linear_calls(fn_or_block, resolve=True):
     """every method call / path call of a body in source order with its nesting:
-    dict(i, kind, recv, method, args, node, conds=[cond texts], loops=n, unsafe=bool)"""
+    dict(i, kind, recv, method, args, node, conds=[cond texts], loops=n, unsafe=bool,
+         iters=[(loop variable, text of what it iterates over)])
+    With `resolve` (default) the body is read with simple lets folded into their uses and with calls
+    to small same-file helpers followed (parameters replaced by the arguments), so that naming a
+    sub-expression or extracting a helper does not change the facts."""
     out = []
-    body = fn_or_block.get("body", fn_or_block) if fn_or_block.get("k") == "Fn" else fn_or_block
+    is_fn = fn_or_block.get("k") == "Fn"
+    body = fn_or_block.get("body", fn_or_block) if is_fn else fn_or_block
+    owner = fn_or_block if is_fn else owner_fn(body)
+    if resolve:
+        try:
+            body = inline_lets_deep(body)
+        except Exception:
+            pass
 
-    def rec(n, conds, loops, unsafe):
+    def t(n):
+        return unparse(n).replace(" ", "")
+
+    def rec(n, conds, loops, unsafe, iters, depth, cur):
         if isinstance(n, list):
             for x in n:
-                rec(x, conds, loops, unsafe)
+                rec(x, conds, loops, unsafe, iters, depth, cur)
             return
         if not isinstance(n, dict):
             return
         k = n.get("k")
         if k == "If":
-            c = unparse(n["cond"]).replace(" ", "")
-            rec(n["cond"], conds, loops, unsafe)
-            rec(n["then"], conds + [c], loops, unsafe)
+            c = t(n["cond"])
+            rec(n["cond"], conds, loops, unsafe, iters, depth, cur)
+            rec(n["then"], conds + [c], loops, unsafe, iters, depth, cur)
             if n.get("else"):
-                rec(n["else"], conds + ["!(" + c + ")"], loops, unsafe)
+                rec(n["else"], conds + ["!(" + c + ")"], loops, unsafe, iters, depth, cur)
             return
         if k == "Match":
-            rec(n["e"], conds, loops, unsafe)
+            rec(n["e"], conds, loops, unsafe, iters, depth, cur)
             for a in n["arms"]:
-                rec(a["body"], conds + ["match:" + unparse(a["pat"]).replace(" ", "")], loops, unsafe)
+                rec(a["body"], conds + ["match:" + t(a["pat"])], loops, unsafe, iters, depth, cur)
             return
         if k in ("For", "While", "Loop"):
+            it2 = iters
             if k == "For":
-                rec(n["iter"], conds, loops, unsafe)
+                rec(n["iter"], conds, loops, unsafe, iters, depth, cur)
+                it2 = iters + [(binding_name(n["pat"]) or t(n["pat"]), t(n["iter"]))]
             if k == "While":
-                rec(n["cond"], conds, loops, unsafe)
-            rec(n["body"], conds, loops + 1, unsafe)
+                rec(n["cond"], conds, loops, unsafe, iters, depth, cur)
+            rec(n["body"], conds, loops + 1, unsafe, it2, depth, cur)
             return
         if k == "Unsafe":
-            rec(n["body"], conds, loops, True)
+            rec(n["body"], conds, loops, True, iters, depth, cur)
             return
         if k == "Closure":
-            rec(n["body"], conds, loops + 1, unsafe)
+            rec(n["body"], conds, loops + 1, unsafe, iters, depth, cur)
             return
         if k == "MethodCall":
-            rec(n["recv"], conds, loops, unsafe)
+            rec(n["recv"], conds, loops, unsafe, iters, depth, cur)
             for a in n["args"]:
-                rec(a, conds, loops, unsafe)
-            out.append(
-                dict(
-                    kind="m",
-                    recv=unparse(n["recv"]).replace(" ", ""),
-                    method=n["method"],
-                    args=[unparse(a).replace(" ", "") for a in n["args"]],
-                    node=n,
-                    conds=list(conds),
-                    loops=loops,
-                    unsafe=unsafe,
-                )
-            )
+                if a.get("k") == "Closure" and n["method"] in ("for_each", "map", "try_for_each", "flat_map", "filter_map", "any", "all") and len(a.get("inputs", [])) == 1:
+                    # `xs.iter_mut().for_each(|x| ..)` binds x like `for x in xs.iter_mut()`
+                    rec(a["body"], conds, loops + 1, unsafe, iters + [(binding_name(a["inputs"][0]) or t(a["inputs"][0]), t(n["recv"]))], depth, cur)
+                else:
+                    rec(a, conds, loops, unsafe, iters, depth, cur)
+            out.append(dict(kind="m", recv=t(n["recv"]), method=n["method"], args=[t(a) for a in n["args"]], node=n,
+                            conds=list(conds), loops=loops, unsafe=unsafe, iters=list(iters), via=depth))
+            if resolve and ident(strip(n["recv"])) == "self":
+                follow(n["method"], n["args"], conds, loops, unsafe, iters, depth, cur)
             return
         if k == "Call":
             for a in n["args"]:
-                rec(a, conds, loops, unsafe)
-            rec(n["func"], conds, loops, unsafe)
-            out.append(
-                dict(
-                    kind="c",
-                    recv="",
-                    method=unparse(n["func"]).replace(" ", ""),
-                    args=[unparse(a).replace(" ", "") for a in n["args"]],
-                    node=n,
-                    conds=list(conds),
-                    loops=loops,
-                    unsafe=unsafe,
-                )
-            )
+                rec(a, conds, loops, unsafe, iters, depth, cur)
+            rec(n["func"], conds, loops, unsafe, iters, depth, cur)
+            out.append(dict(kind="c", recv="", method=t(n["func"]), args=[t(a) for a in n["args"]], node=n,
+                            conds=list(conds), loops=loops, unsafe=unsafe, iters=list(iters), via=depth))
+            segs = path_segs(n["func"])
+            if resolve and segs and (len(segs) == 1 or (len(segs) == 2 and segs[0] == "Self")):
+                follow(segs[-1], n["args"], conds, loops, unsafe, iters, depth, cur)
             return
         for v in children(n):
-            rec(v, conds, loops, unsafe)
+            rec(v, conds, loops, unsafe, iters, depth, cur)
 
-    rec(body, [], 0, False)
+    def follow(name, args, conds, loops, unsafe, iters, depth, cur):
+        if depth >= 2 or cur is None:
+            return
+        callee = _same_file_fn(cur, name)
+        if callee is None or callee is cur or (callee["body"].get("le", 0) - callee["body"].get("ln", 0)) > 60:
+            return
+        params = [binding_name(i["pat"]) for i in callee["sig"]["inputs"] if isinstance(i, dict) and "pat" in i]
+        b = callee["body"]
+        if len(params) != len(args):
+            return
+        for p, a in zip(params, args):
+            a2 = strip(a)  # `&mut self.rows` used through auto-deref is `self.rows`
+            if p and a2 is not None and ident(a2) != p and not any(x.get("k") in ("Closure", "Block", "Macro") for x in walk(a2)):
+                b = _subst(b, p, a2)
+        try:
+            b = inline_lets_deep(b)
+        except Exception:
+            pass
+        rec(b, conds, loops, unsafe, iters, depth + 1, callee)
+
+    rec(body, [], 0, False, [], 0, owner)
     for i, c in enumerate(out):
         c["i"] = i
     return out
@@ -772,6 +797,7 @@ import re as _re
 _KW = {"let", "for", "in", "if", "else", "return", "mut", "as", "match", "while", "loop", "break", "continue", "ref",
        "move", "unsafe", "fn", "impl", "self", "Self", "true", "false", "Some", "None", "Ok", "Err"}
 _WORD = _re.compile(r"[A-Za-z_][A-Za-z_0-9]*")
+_SEG_KW = {"let", "for", "in", "if", "else", "return", "mut", "as", "match", "while", "loop", "ref", "move", "unsafe", "break", "continue", "dyn", "impl", "where"}
 
 
 def _spaced(node):
@@ -780,90 +806,358 @@ def _spaced(node):
     return s.replace(" ", "").replace("\x01", " ")
 
 
+_RUN = _re.compile(r"[A-Za-z_0-9]+")
+_OWNER = {}
+
+
+def owner_fn(node):
+    """the Fn (of an already loaded file) whose subtree contains `node`, else None"""
+    if id(node) in _OWNER:
+        return _OWNER[id(node)]
+    for d in list(_FILES.values()):
+        if d.get("_owner_indexed"):
+            continue
+        d["_owner_indexed"] = True
+        for f in d["_fns"]:
+            for n in walk(f):
+                _OWNER.setdefault(id(n), f)
+    return _OWNER.get(id(node))
+
+
+def _bound_names(node, fn=None):
+    b = {n["name"] for n in walk(node) if n.get("k") == "PIdent"}
+    if fn is not None:
+        for i in fn.get("sig", {}).get("inputs", []):
+            if isinstance(i, dict) and "pat" in i:
+                b |= {n["name"] for n in walk(i["pat"]) if n.get("k") == "PIdent"}
+    return b
+
+
+def inline_lets_deep(node, _mut=None):
+    """copy of `node` with every simple `let` folded into its uses, in every nested block"""
+    if _mut is None:
+        _mut = {n["name"] for n in walk(node) if n.get("k") == "PIdent" and n.get("mut")} if isinstance(node, (dict, list)) else set()
+        fn = node if isinstance(node, dict) and node.get("k") == "Fn" else (owner_fn(node) if isinstance(node, dict) else None)
+        for i in (fn or {}).get("sig", {}).get("inputs", []):
+            if isinstance(i, dict) and "pat" in i and (i["pat"].get("mut") or i.get("ty", "").replace(" ", "").startswith("&mut") or "&mut" in i.get("ty", "").replace(" ", "")[:12]):
+                _mut |= _pat_names(i["pat"])
+    if isinstance(node, list):
+        return [inline_lets_deep(x, _mut) for x in node]
+    if not isinstance(node, dict):
+        return node
+    out = {k: (inline_lets_deep(v, _mut) if isinstance(v, (dict, list)) and k != "tokens" else v) for k, v in node.items()}
+    if out.get("k") == "Block" and isinstance(out.get("stmts"), list):
+        out["stmts"] = inline_simple_lets(out["stmts"], multi=True, mut_names=_mut)
+    return out
+
+
+def _same_file_fn(fn, name):
+    """a function defined in the same file as `fn` (same impl first) called `name`"""
+    if fn is None:
+        return None
+    for d in _FILES.values():
+        if d.get("file") == fn.get("_file") and fn in d["_fns"]:
+            cands = [f for f in d["_fns"] if f["name"] == name and f is not fn and not f.get("_test") and f.get("body")]
+            same = [f for f in cands if (f.get("_owner") or {}).get("self_ty") == (fn.get("_owner") or {}).get("self_ty")]
+            cands = same or cands
+            return cands[0] if len(cands) == 1 else None
+    return None
+
+
+def _expanded_helpers(node, fn, depth=2):
+    """bodies of same-file helpers called from `node`, parameters replaced by the call's arguments"""
+    out = []
+    if fn is None or depth == 0:
+        return out
+    for c in walk(node):
+        callee = None
+        args = None
+        if c.get("k") == "MethodCall" and ident(strip(c["recv"])) == "self":
+            callee, args = _same_file_fn(fn, c["method"]), c["args"]
+        elif c.get("k") == "Call":
+            segs = path_segs(c["func"])
+            if segs and (len(segs) == 1 or segs[0] == "Self"):
+                callee, args = _same_file_fn(fn, segs[-1]), c["args"]
+        if callee is None or (callee["body"].get("le", 0) - callee["body"].get("ln", 0)) > 80:
+            continue
+        params = [binding_name(i["pat"]) for i in callee["sig"]["inputs"] if isinstance(i, dict) and "pat" in i]
+        body = callee["body"]
+        if len(params) == len(args):
+            for p, a in zip(params, args):
+                if p and _is_simple_init(strip(a), allow_self=True) and ident(strip(a)) != p:
+                    body = _subst(body, p, strip(a))
+        out.append(body)
+        out.extend(_expanded_helpers(callee["body"], callee, depth - 1))
+    return out
+
+
+
+def _pat_names(p):
+    return {n["name"] for n in walk(p) if n.get("k") == "PIdent"} if isinstance(p, (dict, list)) else set()
+
+
+def _scoped_blocks(node, outer, target=None, found=None):
+    """[(block, names visible in it)]: names bound inside the block plus those bound by the
+    constructs enclosing it (lets of enclosing blocks, loop / closure / arm / if-let patterns).
+    With `target`, found[0] receives the names visible where that node sits."""
+    out = []
+
+    def rec(n, ctx):
+        if isinstance(n, list):
+            for x in n:
+                rec(x, ctx)
+            return
+        if not isinstance(n, dict):
+            return
+        if target is not None and n is target:
+            found.append(set(ctx))
+        k = n.get("k")
+        if k == "Block":
+            lets = set()
+            for s in n.get("stmts", []):
+                if s.get("k") == "Let":
+                    lets |= _pat_names(s["pat"])
+            ctx2 = ctx | lets
+            out.append((n, ctx2 | _pat_names(n)))
+            if len(n.get("stmts", [])) > 1:
+                for st in n["stmts"]:
+                    if st.get("k") in ("ExprStmt", "Let"):
+                        out.append((st, ctx2 | _pat_names(st)))
+            rec(n.get("stmts", []), ctx2)
+        elif k == "For":
+            rec(n.get("iter"), ctx)
+            rec(n.get("body"), ctx | _pat_names(n.get("pat")))
+        elif k == "Closure":
+            rec(n.get("body"), ctx | _pat_names(n.get("inputs") or n.get("params") or []))
+        elif k == "Match":
+            rec(n.get("e"), ctx)
+            for arm in n.get("arms", []):
+                c2 = ctx | _pat_names(arm.get("pat"))
+                rec(arm.get("guard"), c2)
+                rec(arm.get("body"), c2)
+        elif k == "If":
+            c = n.get("cond")
+            c2 = ctx | {x["name"] for x in walk(c) if x.get("k") == "PIdent"} if c else ctx
+            rec(c, ctx)
+            rec(n.get("then"), c2)
+            rec(n.get("else"), ctx)
+        elif k in ("Fn", "Impl", "Mod"):
+            return
+        else:
+            for v in children(n):
+                rec(v, ctx)
+
+    rec(node, set(outer))
+    return out
+
+
+class _Hay:
+    __slots__ = ("text", "bound", "starts", "ends", "vocab")
+
+    def __init__(self, nodes, bound):
+        spaced = "\x00".join(_spaced(n) for n in nodes)
+        self.bound = bound
+        self.vocab = set(_WORD.findall(spaced))
+        text = []
+        self.starts, self.ends = set(), set()
+        pos = 0
+        k = 0
+        for mo in _RUN.finditer(spaced):
+            # characters before this run
+            gap = spaced[k:mo.start()].replace(" ", "")
+            text.append(gap)
+            pos += len(gap)
+            self.starts.add(pos)
+            text.append(mo.group(0))
+            pos += len(mo.group(0))
+            self.ends.add(pos)
+            k = mo.end()
+        text.append(spaced[k:].replace(" ", ""))
+        self.text = "".join(text)
+
+
 class FragText(str):
+    """the space-free text of a syntax node whose `in` / `==` see through behaviour-preserving
+    edits: consistent renaming of locals, naming or inlining of simple sub-expressions (`let`),
+    and extraction of a private helper in the same file"""
+
     def __new__(cls, node):
-        spaced = _spaced(node)
-        o = super().__new__(cls, spaced.replace(" ", ""))
-        o._spaced = spaced
-        o._vocab = set(_WORD.findall(spaced))
-        # only locally bound names may stand in for a fragment's name: a field or method that changed is never forgiven
-        o._bound = {n["name"] for n in walk(node) if isinstance(n, dict) and n.get("k") == "PIdent"}
+        o = super().__new__(cls, unparse(node).replace(" ", ""))
+        o._node = node
+        o._hays = None
         o._map = {}
         return o
 
-    def _segment(self, token):
-        """split a fused fragment token (`letnext_center`) into words; returns (words, unknown words)"""
-        vocab = self._vocab | _KW
-        n = len(token)
-        best = {0: ([], 0)}
-        for i in range(n):
-            if i not in best:
-                continue
-            words, unk = best[i]
-            for j in range(i + 1, n + 1):
-                w = token[i:j]
-                if not _re.fullmatch(r"[A-Za-z_][A-Za-z_0-9]*|[0-9][A-Za-z_0-9.]*", w) and not w[0].isdigit():
-                    continue
-                cost = 0 if (w in vocab or w[0].isdigit()) else len(w) + 1
-                cand = (words + [w], unk + cost)
-                if j not in best or cand[1] < best[j][1] or (cand[1] == best[j][1] and len(cand[0]) < len(best[j][0])):
-                    best[j] = cand
-        return best.get(n, ([token], 1))
+    # -- haystacks ---------------------------------------------------------
+    def _haystacks(self):
+        """[whole node, whole node with lets inlined, (+ helpers, + helpers inlined),
+        then every nested block with the names visible in it]"""
+        if self._hays is None:
+            node = self._node
+            fn = owner_fn(node) if isinstance(node, dict) else None
+            hays = []
+            b0 = _bound_names(node, fn)
+            if fn is not None and fn.get("body") is not None and node is not fn["body"] and node is not fn:
+                found = []
+                try:
+                    _scoped_blocks(fn["body"], _bound_names({"k": "x"}, fn), target=node, found=found)
+                except Exception:
+                    found = []
+                if found:
+                    b0 = b0 | found[0]
+            hays.append(_Hay([node], b0))
+            try:
+                inl = inline_lets_deep(node)
+                hays.append(_Hay([inl], b0))
+            except Exception:
+                inl = None
+            self._n_whole = len(hays)
+            try:
+                # only for whole bodies: a fragment looked up in a single expression is a dispatch test
+                helpers = _expanded_helpers(node, fn) if isinstance(node, dict) and node.get("k") in ("Block", "Fn") else []
+            except Exception:
+                helpers = []
+            if helpers:
+                bh = set(b0)
+                for h in helpers:
+                    bh |= _bound_names(h)
+                hays.append(_Hay([node] + helpers, bh))
+                if inl is not None:
+                    hays.append(_Hay([inl] + [inline_lets_deep(h) for h in helpers], bh))
+            # nested blocks: a name bound only in a sibling scope is not visible here, so a
+            # fragment's use of that name may stand for a renamed local of this scope
+            params = _bound_names({"k": "x"}, fn)
+            for src in ([node] if inl is None else [node, inl]):
+                for blk, vis in _scoped_blocks(src, params):
+                    if blk is src or (blk.get("k") == "Block" and not blk.get("stmts")):
+                        continue
+                    if vis != b0:
+                        hays.append(_Hay([blk], vis))
+            self._hays = hays
+        return self._hays
 
-    def _vanished(self, frag):
+    # -- fragment -> regex ---------------------------------------------------
+    @staticmethod
+    def _segment(token, vocab):
+        """split a fused fragment token (`letnext_center`, `forjin0`, `xasusize`) into words.  Only a
+        keyword can be fused to a neighbour, so two non-keyword words are never adjacent."""
+        n = len(token)
+        # best[(pos, last_was_kw)] = (words, cost)
+        best = {(0, True): ([], 0)}
+        for i in range(n):
+            for lastkw in (True, False):
+                if (i, lastkw) not in best:
+                    continue
+                words, unk = best[(i, lastkw)]
+                for j in range(i + 1, n + 1):
+                    w = token[i:j]
+                    iskw = w in _SEG_KW
+                    if not iskw and not lastkw:
+                        continue
+                    if w[0].isdigit():
+                        if not _re.fullmatch(r"[0-9][0-9_]*([a-z][a-z0-9]*)?", w):
+                            continue
+                        cost = 0
+                    elif not _re.fullmatch(r"[A-Za-z_][A-Za-z_0-9]*", w):
+                        continue
+                    else:
+                        cost = 0 if (iskw or w in vocab) else len(w) + 10
+                    key = (j, iskw)
+                    cand = (words + [w], unk + cost + (1 if iskw else 0))
+                    if key not in best or cand[1] < best[key][1] or (cand[1] == best[key][1] and len(cand[0]) < len(best[key][0])):
+                        best[key] = cand
+        ends = [best[k] for k in ((n, True), (n, False)) if k in best]
+        if not ends:
+            return [token]
+        return min(ends, key=lambda c: (c[1], len(c[0])))[0]
+
+    def _regex(self, frag, hay):
+        """(compiled regex, variable names) or None when the fragment has no variable or no anchor"""
+        vocab = hay.vocab | _KW | hay.bound
+        pieces = []  # ('lit', text) | ('var', name)
+        k = 0
+        for mo in _RUN.finditer(frag):
+            if mo.start() > k:
+                pieces.append(("lit", frag[k:mo.start()]))
+            words = self._segment(mo.group(0), vocab)
+            off = mo.start()
+            for wi, w in enumerate(words):
+                pre = frag[off - 1] if off > 0 and wi == 0 else ("" if wi == 0 else "w")
+                end = off + len(w)
+                post = frag[end:end + 2] if wi == len(words) - 1 else "w"
+                local_pos = (
+                    pre not in (".", ":", "'")
+                    and post[:1] != "("
+                    and not (post[:1] == "!" and post != "!=")
+                    and post != "::"
+                    and not (post[:1] == ":" and pre in ("{", ","))
+                )
+                is_var = (
+                    local_pos
+                    and (w[0].islower() or w[0] == "_")
+                    and w not in _KW
+                    and w not in hay.bound
+                    and w != "_"
+                )
+                pieces.append(("var", w) if is_var else ("lit", w))
+                off = end
+            k = mo.end()
+        if k < len(frag):
+            pieces.append(("lit", frag[k:]))
+        variables = []
+        for kind, w in pieces:
+            if kind == "var" and w not in variables:
+                variables.append(w)
+        if not variables or len(variables) > 8:
+            return None
+        lit_words = {w for kind, w in pieces if kind == "lit" and _re.fullmatch(r"[A-Za-z_][A-Za-z_0-9]*", w) and w not in _KW}
+        if not lit_words:
+            return None  # nothing the function still has: anything would match anything
+        if any(w not in hay.vocab for w in lit_words):
+            return None  # cannot match here
+        targets = sorted((b for b in hay.bound if b not in lit_words and b not in _KW), key=lambda x: (-len(x), x))
+        if not targets:
+            return None
+        alt = "|".join(_re.escape(t) for t in targets)
         out = []
-        for tok in _WORD.findall(frag):
-            if tok in self._vocab or tok in _KW:
-                continue
-            words, unk = self._segment(tok)
-            for w in words:
-                if w not in self._vocab and w not in _KW and not w[0].isdigit() and w not in out:
-                    out.append(w)
-        return out
+        seen = {}
+        for kind, w in pieces:
+            if kind == "lit":
+                out.append(_re.escape(w))
+            elif w in seen:
+                out.append("(?P=%s)" % seen[w])
+            else:
+                seen[w] = "v%d" % len(seen)
+                out.append("(?P<%s>%s)" % (seen[w], alt))
+        return _re.compile("".join(out)), seen
 
     def _tolerant(self, frag, whole=False):
-        van = [v for v in self._vanished(frag) if len(v) > 0]
-        if not van or len(van) > 3:
+        if not isinstance(frag, str) or not frag:
             return False
-        frag_words = set()
-        for mo in _WORD.finditer(frag):
-            words = self._segment(mo.group(0))[0]
-            frag_words.update(words)
-            # a name used as a field, method, path segment, macro or call is not a local: never forgiven
-            pre = frag[mo.start() - 1] if mo.start() else ""
-            post = frag[mo.end():mo.end() + 2]
-            if words[0] in van and pre in (".", ":"):
-                return False
-            if words[-1] in van and (post[:1] in ("(", "!") or post == "::" or (post[:1] == ":" and pre in ("{", ","))):
-                return False
-        # the fragment needs an anchor the function still has, else anything matches anything
-        if not any(w in self._vocab and w not in _KW and not w[0].isdigit() for w in frag_words):
-            return False
-        new = sorted(w for w in self._bound if w not in _KW and w not in frag_words and not w[0].isupper())
-        # apply mappings already decided on this text first
-        def apply(f, m):
-            if not m:
-                return f
-
-            def sub(mo):
-                return "".join(m.get(w, w) for w in self._segment(mo.group(0))[0])
-
-            return _WORD.sub(sub, f)
-
-        def test(f):
-            return (f == str(self)) if whole else str.__contains__(self, f)
-
-        base = apply(frag, {k: v for k, v in self._map.items() if k in van})
-        rest = [v for v in van if v not in self._map]
-        if not rest:
-            return test(base)
-        import itertools
-
-        for combo in itertools.permutations(new, len(rest)) if len(rest) <= 2 else []:
-            m = dict(zip(rest, combo))
-            if test(apply(base, m)):
-                self._map.update(m)
+        for hi, hay in enumerate(self._haystacks()):
+            if whole and hi >= self._n_whole:
+                break
+            if hi > 0 and ((frag == hay.text) if whole else (frag in hay.text)):
                 return True
+            rx = self._regex(frag, hay)
+            if rx is None:
+                continue
+            rx, names = rx
+            it = [rx.fullmatch(hay.text)] if whole else rx.finditer(hay.text)
+            for mo in it:
+                if mo is None:
+                    continue
+                vals = {}
+                ok = True
+                for orig, g in names.items():
+                    a, b = mo.span(g)
+                    if a not in hay.starts or b not in hay.ends:
+                        ok = False
+                        break
+                    vals[orig] = mo.group(g)
+                if ok and len(set(vals.values())) == len(vals):
+                    self._map.update(vals)
+                    return True
         return False
 
     def __contains__(self, frag):
@@ -871,7 +1165,7 @@ class FragText(str):
             return True
         try:
             return self._tolerant(frag)
-        except Exception:
+        except _re.error:
             return False
 
     def __eq__(self, other):
@@ -880,7 +1174,7 @@ class FragText(str):
         if isinstance(other, str) and not isinstance(other, FragText):
             try:
                 return self._tolerant(other, whole=True)
-            except Exception:
+            except _re.error:
                 return False
         return False
 
@@ -903,9 +1197,20 @@ _SIMPLE_KINDS = {"Path", "Lit", "Call", "Cast", "Paren", "Tuple", "Struct", "Bin
 _SIMPLE_METHODS = {"into", "clone", "abs", "neg", "sqrt", "min", "max", "recip", "square", "to_owned", "as_ref", "get", "len", "lower", "upper"}
 
 
-def _is_simple_init(e):
-    """an initialiser that reads only locals: no `self`, no indexing, no macro,
-    no `?`, no closure, no block; method calls only from a fixed pure list"""
+_IMPURE_METHODS = {
+    "next", "pop", "push", "take", "insert", "remove", "drain", "recv", "send", "lock", "swap", "replace", "clear",
+    "extend", "truncate", "resize", "resize_with", "fill", "entry", "borrow_mut", "as_mut", "as_mut_ptr", "iter_mut",
+    "get_mut", "finalize", "alloc", "reset", "write", "read", "flush", "spawn", "install", "build", "eval", "simplify",
+    "get_or_insert", "get_or_insert_with", "get_or_insert_active", "set", "store", "fetch_add", "fetch_sub", "cancel",
+    "last_mut", "first_mut", "split_at_mut", "chunks_mut", "peek", "advance", "poke", "op", "step", "bump", "push_back",
+    "pop_front", "pop_back", "push_front", "append", "retain", "sort", "sort_by", "sort_unstable", "dedup", "reverse",
+}
+
+
+def _is_simple_init(e, allow_self=False, mut_roots=None):
+    """an initialiser that can be read at its use sites instead: it reads only locals (no `self`), has no
+    indexing through a mutable root, no macro, `?`, closure or block; method calls are either from the
+    fixed pure list or (when `mut_roots` is known) any non-mutating-looking method on an immutable root"""
     if e is None:
         return False
     for n in walk(e):
@@ -914,12 +1219,26 @@ def _is_simple_init(e):
             continue
         if k[0] == "P" and k[1:2].isupper():
             return False
-        if k not in _SIMPLE_KINDS and not k.startswith("Type") and k not in ("QPath", "Seg", "FieldValue", "GenericArg"):
+        if k not in _SIMPLE_KINDS and not k.startswith("Type") and k not in ("QPath", "Seg", "FieldValue", "GenericArg") and not (k == "Index" and mut_roots is not None):
             return False
-        if k == "Path" and path_segs(n) == ["self"]:
+        if k == "Path" and path_segs(n) == ["self"] and not allow_self:
             return False
         if k == "MethodCall" and n["method"] not in _SIMPLE_METHODS:
-            return False
+            if mut_roots is None or n["method"] in _IMPURE_METHODS or n["method"].startswith(("set_", "push_", "insert_", "remove_", "take_", "reset_", "update_", "add_")):
+                return False
+            r = strip(n["recv"])
+            while r is not None and r.get("k") in ("Field", "MethodCall", "Index", "Paren", "Cast", "Try"):
+                r = strip(r.get("recv") if r.get("k") == "MethodCall" else r.get("e"))
+            root = ident(r) if r is not None else None
+            if root is None or root in mut_roots or root == "self":
+                return False
+        if k == "Index" and mut_roots is not None:
+            r = strip(n["e"])
+            while r is not None and r.get("k") in ("Field", "Index", "Paren"):
+                r = strip(r.get("e"))
+            root = ident(r) if r is not None else None
+            if root is None or root in mut_roots or root == "self":
+                return False
         if k == "Unary" and n.get("op") == "*":
             return False
     return True
@@ -931,7 +1250,7 @@ def _subst(node, name, repl):
     if not isinstance(node, dict):
         return node
     if node.get("k") == "Path" and ident(node) == name:
-        return {"k": "Paren", "e": repl, "ln": node.get("ln"), "c": node.get("c")} if repl.get("k") in ("Binary", "Unary", "Cast") else repl
+        return repl  # unparse parenthesises every Binary / Cast itself
     out = {k: (_subst(v, name, repl) if isinstance(v, (dict, list)) and k != "tokens" else v) for k, v in node.items()}
     if out.get("short") and out.get("e") is not node.get("e") and ident(node.get("e")) == name:
         out["short"] = False
@@ -943,7 +1262,7 @@ def _uses(node, name):
     for n in walk(node):
         if n.get("k") == "Path" and ident(n) == name:
             n_uses += 1
-        elif n.get("k") == "Macro" and name in _WORD.findall(tokens_str(n) if n.get("tokens") else ""):
+        elif n.get("k") == "Macro" and name in _WORD.findall(tokens_str(n["tokens"]) if n.get("tokens") else ""):
             if not n.get("args"):
                 return 99
         elif n.get("k") == "PIdent" and n["name"] == name:
@@ -951,7 +1270,7 @@ def _uses(node, name):
     return n_uses
 
 
-def inline_simple_lets(stmts):
+def inline_simple_lets(stmts, multi=False, mut_names=None):
     """statement list with every single-use simple `let name = init;` folded into its use
     (same block, the use not under a loop or closure)"""
     stmts = list(stmts)
@@ -966,10 +1285,13 @@ def inline_simple_lets(stmts):
                 continue
             name = p["name"]
             init = s.get("init")
-            if not _is_simple_init(init):
+            if not _is_simple_init(init, mut_roots=mut_names):
                 continue
+            if any(x.get("k") == "Path" and ident(x) == name for x in walk(init)):
+                continue  # `let tape = tape.data();` shadows what it reads: leave it
             rest = stmts[i + 1:]
-            if sum(_uses(r, name) for r in rest) != 1:
+            n_uses = sum(_uses(r, name) for r in rest)
+            if n_uses == 0 or n_uses >= 99 or (n_uses != 1 and not multi):
                 continue
             # the single use must not sit under a loop or a closure
             under = False
@@ -978,8 +1300,149 @@ def inline_simple_lets(stmts):
                     if n.get("k") in ("For", "While", "Loop", "Closure") and _uses(n, name):
                         under = True
             if under:
-                continue
+                # fine when nothing the initialiser reads can change: only immutable locals
+                reads = {ident(x) for x in walk(init) if x.get("k") == "Path" and ident(x)}
+                if mut_names is None or (reads & mut_names):
+                    continue
             stmts = stmts[:i] + [_subst(r, name, init) for r in rest]
             changed = True
             break
     return stmts
+
+
+# ---------------------------------------------------------------------------
+# Shape-independent queries used by rules that must not care whether a choice is
+# written as if/else, if-let/else, match or let-else.
+
+
+def branch_leaves(e):
+    """the expressions an if / if-let / match / block expression can evaluate to
+    -> [(leaf expr, [binding contexts])] where a binding context is (pattern, scrutinee)
+    for every if-let / match arm passed on the way"""
+    out = []
+
+    def rec(n, ctx):
+        n = strip(n) if isinstance(n, dict) else n
+        if n is None:
+            return
+        k = n.get("k")
+        if k == "Block":
+            st = n["stmts"]
+            if st and st[-1].get("k") == "ExprStmt" and not st[-1].get("semi", True):
+                rec(st[-1]["e"], ctx)
+            else:
+                out.append((n, ctx))
+        elif k == "If":
+            c = strip(n["cond"])
+            c2 = ctx + [(c["pat"], c["e"])] if c.get("k") == "LetCond" else ctx
+            rec(n["then"], c2)
+            if n.get("else") is not None:
+                rec(n["else"], ctx)
+            else:
+                out.append(({"k": "Tuple", "elems": []}, ctx))
+        elif k == "Match":
+            for arm in n["arms"]:
+                rec(arm["body"], ctx + [(arm["pat"], n["e"])])
+        else:
+            out.append((n, ctx))
+
+    rec(e, [])
+    return out
+
+
+def some_binding(pat):
+    """`Some(x)` / `Some(ref x)` -> 'x', else None"""
+    if pat.get("k") == "PTupleStruct":
+        segs, subs = pat_variant(pat)
+        if segs and segs[-1] == "Some" and subs and len(subs) == 1:
+            return binding_name(subs[0])
+    return None
+
+
+def option_source(e):
+    """`v.as_ref()` / `&v` / `v` / `v.as_mut()` / `v.as_deref()` -> 'v' (the Option being taken apart)"""
+    e = strip(e)
+    while e is not None and e.get("k") == "MethodCall" and e["method"] in ("as_ref", "as_mut", "as_deref", "take", "clone") and not e["args"]:
+        e = strip(e["recv"])
+    return ident(e) if e is not None else None
+
+
+_ITER_ADAPTERS = ("for_each", "map", "try_for_each", "flat_map", "filter_map", "any", "all", "filter", "find", "position", "find_map", "map_init", "for_each_init")
+
+
+def enclosing_binders(root, target):
+    """the iteration variables in scope at `target`, outermost first: [(name, text of the iterated
+    expression, node)] for `for x in IT {..}` and for closures handed to an iterator adapter
+    (`IT.map(|x| ..)`, `IT.flat_map(..)`, `IT.for_each(..)`), so that a loop and its iterator-chain
+    spelling read the same"""
+    found = []
+
+    def t(n):
+        return unparse(n).replace(" ", "")
+
+    def rec(n, binders):
+        if found:
+            return
+        if isinstance(n, list):
+            for x in n:
+                rec(x, binders)
+            return
+        if not isinstance(n, dict):
+            return
+        if n is target:
+            found.append(list(binders))
+            return
+        k = n.get("k")
+        if k == "For":
+            rec(n["iter"], binders)
+            rec(n["body"], binders + [(binding_name(n["pat"]) or t(n["pat"]), t(strip(n["iter"])), n)])
+            return
+        if k == "MethodCall" and n["method"] in _ITER_ADAPTERS:
+            rec(n["recv"], binders)
+            for a in n["args"]:
+                if a.get("k") == "Closure" and a.get("inputs"):
+                    # the last closure parameter is the item (map_init passes the state first)
+                    p = a["inputs"][-1]
+                    rec(a["body"], binders + [(binding_name(p) or t(p), t(strip(n["recv"])), n)])
+                else:
+                    rec(a, binders)
+            return
+        for v in children(n):
+            rec(v, binders)
+
+    rec(root, [])
+    return found[0] if found else None
+
+
+def iter_source(text):
+    """`(0..n).into_iter()` / `xs.iter()` / `&mut xs` -> the thing iterated, without adapters that keep every item"""
+    s = text
+    changed = True
+    while changed:
+        changed = False
+        for suf in (".into_iter()", ".iter()", ".iter_mut()", ".into_par_iter()", ".par_iter()", ".par_iter_mut()", ".copied()", ".cloned()"):
+            if s.endswith(suf):
+                s = s[: -len(suf)]
+                changed = True
+        if s.startswith("(") and s.endswith(")") and _balanced(s[1:-1]):
+            s = s[1:-1]
+            changed = True
+        if s.startswith("&mut"):
+            s = s[4:]
+            changed = True
+        elif s.startswith("&"):
+            s = s[1:]
+            changed = True
+    return s
+
+
+def _balanced(s):
+    d = 0
+    for ch in s:
+        if ch == "(":
+            d += 1
+        elif ch == ")":
+            d -= 1
+            if d < 0:
+                return False
+    return d == 0
